@@ -83,6 +83,9 @@ namespace pika {
         ///           set by signal() is larger than the max_difference.
         void wait(std::int64_t upper_limit)
         {
+#if defined(PIKA_VERIF)
+            PIKA_VERIF_POINT(811, this);
+#endif
             std::unique_lock<mutex_type> l(mtx_);
             sem_.wait(l, upper_limit);
         }
@@ -98,6 +101,9 @@ namespace pika {
         ///           would not block if it was calling wait().
         bool try_wait(std::int64_t upper_limit = 1)
         {
+#if defined(PIKA_VERIF)
+            PIKA_VERIF_POINT(812, this);
+#endif
             std::unique_lock<mutex_type> l(mtx_);
             return sem_.try_wait(l, upper_limit);
         }
@@ -111,6 +117,9 @@ namespace pika {
         ///             limit plus the max_difference.
         void signal(std::int64_t lower_limit)
         {
+#if defined(PIKA_VERIF)
+            PIKA_VERIF_POINT(813, this);
+#endif
             std::unique_lock<mutex_type> l(mtx_);
             sem_.signal(std::move(l), lower_limit);
         }
